@@ -586,6 +586,8 @@ class Stage:
         def action(var, value):
             if var not in self._meta and var not in self._placeholders:
                 raise Exception("You attempted to set the initial value of an unknown symbol: " + str(var))
+            if var in self._placeholders and not (is_equal(var, self.T) or is_equal(var, self.t0)):
+                raise Exception("You attempted to set the initial value of an expression like at_t0(x)/at_tf(x); only symbols (and ocp.T, ocp.t0) can be initialized. Got " + str(var))
             if np.any([var in p for p in self.parameters.values()]):
                 raise Exception("You attempted to set the initial value of a parameter. Did you mean ocp.set_value()? Got " + str(var))
             if var.is_scalar():
